@@ -101,7 +101,7 @@ func (consumer *Consumer) retrieveAndSendMessage() {
 
 	dTag := consumer.channel.NextDeliveryTag()
 	if !consumer.noAck {
-		consumer.channel.AddUnackedMessage(dTag, consumer.ConsumerTag, consumer.queue.GetName(), message)
+		consumer.channel.AddUnackedMessage(dTag, consumer.ConsumerTag, consumer.queue.GetName(), consumer.queue, message)
 	}
 
 	// handle metrics
